@@ -503,6 +503,7 @@ class StatesManager:
         self.grid = grid
         self.pairing = pairing
         self._last_projected_index = -1
+        self._last_logged_index = -1
 
     def is_outside(self, state_increment):
         state = self.origin_coordinates + state_increment
@@ -530,14 +531,16 @@ class StatesManager:
         is_outside = self.is_outside
         project = self.pairing.project
         if x == max_logged:
-            # reset the self._last_projected_index
-            self._last_projected_index = -1
+            # the caller has logged the first `max_logged` states: go on after the index of the last logged one
+            self._last_projected_index = self._last_logged_index
 
         xx = max(x, self._last_projected_index + 1)
 
         while xx <= self.max_frontier_indices:
             if not is_outside(state_increment := project(xx)):
                 self._last_projected_index = xx
+                if not 0 <= max_logged <= x:
+                    self._last_logged_index = xx
                 return state_increment, False
             xx = xx + 1
 
